@@ -3,8 +3,8 @@
 //! Case / observation format: see lean/LolHtml/Lane/Mem.lean.
 //!
 //! Independent oracle (not diffed, appended as ` ||ORACLE:C10:<site> …`):
-//!   * F5-prealloc-exceeds-max : `Arena::new` with prealloc > max panics (debug) / keeps the failed charge (release)
-//!   * F5-prealloc-capacity-overflow : same site, prealloc ≤ max but > isize::MAX (reservation fails)
+//!   * prealloc-left-charged   : `Arena::new` returned with usage > max (finding F5, repaired in /repo 6823fd9:
+//!                               must stay silent)
 //!   * usage-exceeds-max       : a call returned Ok, no call failed before, and accounted usage > max
 //!   * arena-content           : the arena bytes differ from a reference `Vec<u8>` replay
 //!   * held-exceeds-max        : arena length or vec length × item size exceeds max after an Ok call
@@ -120,28 +120,12 @@ pub fn run(line: &str) -> String {
     };
     let mut oracle: Vec<String> = vec![];
 
-    let arena = catch_unwind(AssertUnwindSafe(|| VerifArena::new(limiter.clone(), prealloc)));
-    let Ok(mut arena) = arena else {
-        let mut s = format!("isz={isz} PANIC-prealloc");
-        if prealloc > max {
-            s.push_str(&format!(
-                " ||ORACLE:C10:F5-prealloc-exceeds-max Arena::new panics (debug_assert) with prealloc={prealloc} > max={max}; usage left at {}",
-                limiter.verif_current_usage()
-            ));
-        } else {
-            // try_reserve_exact(prealloc) failed although the charge passed (prealloc > isize::MAX:
-            // CapacityOverflow); same swallowed-failure site as F5
-            s.push_str(&format!(
-                " ||ORACLE:C10:F5-prealloc-capacity-overflow Arena::new panics (debug_assert) with prealloc={prealloc} <= max={max}; usage left at {}",
-                limiter.verif_current_usage()
-            ));
-        }
-        return s;
-    };
+    // Arena::new cannot fail: the preallocation is clamped to the limit (rolled back if unreservable)
+    let mut arena = VerifArena::new(limiter.clone(), prealloc);
     let mut out = format!("isz={isz} init=ok:{}", limiter.verif_current_usage());
     if limiter.verif_current_usage() > max {
         oracle.push(format!(
-            "F5-prealloc-exceeds-max Arena::new returned with usage {} > max {max}",
+            "prealloc-left-charged Arena::new returned with usage {} > max {max} (prealloc={prealloc})",
             limiter.verif_current_usage()
         ));
     }
@@ -199,10 +183,10 @@ pub fn run(line: &str) -> String {
                 arena.bytes().len(),
                 vec.len()
             ));
-            if ok && !failed_before && usage > max && prealloc <= max {
+            if ok && !failed_before && usage > max {
                 oracle.push(format!("usage-exceeds-max op#{i} usage={usage} max={max}"));
             }
-            if ok && prealloc <= max && (arena.bytes().len() > max || vec.len().saturating_mul(isz) > max) {
+            if ok && (arena.bytes().len() > max || vec.len().saturating_mul(isz) > max) {
                 oracle.push(format!(
                     "held-exceeds-max op#{i} arena_len={} vec_bytes={} max={max}",
                     arena.bytes().len(),
